@@ -499,6 +499,11 @@ func main() {
 	}
 
 	if opts.Replay != "" {
+		var xin extIn
+		if err := hlib.ReplayInput(opts.Replay, &xin); err == nil && len(xin.Evs) > 0 {
+			emitExt(o, f, buildFor(f, xin), xin)
+			return
+		}
 		var in runIn
 		if err := hlib.ReplayInput(opts.Replay, &in); err != nil {
 			panic(err)
@@ -508,6 +513,16 @@ func main() {
 	}
 
 	r := hlib.NewRng(opts.Seed)
+	if !c26 {
+		// extended runs (orphan-pool limits, finalize events) with their own generator and budget
+		xb := 60 * time.Second
+		if opts.Thorough() {
+			xb = 25 * time.Minute
+		}
+		xs := time.Now()
+		extStreams(o, f, hlib.NewRng(opts.Seed+7777), opts.Thorough(), func() bool { return time.Since(xs) > xb })
+		start = time.Now()
+	}
 	nTrees, nOrders, budget := 4, 36, 70*time.Second
 	exhaustOff := 4
 	if opts.Thorough() {
